@@ -5,11 +5,16 @@ backend (sync and coroutine flavours), parking locks, parked writes, parked prod
   (i)  ALL completion orders of the pending backend calls on small snapshot cases, and all single (thorough: double)
        pre-emptions at lock / write / call boundaries on small restore cases (2–3 loaders sharing files),
   (ii) PCT-style and uniformly random schedules on larger generated cases (shared chunks, several references per file,
-       pre-existing chunks, injected transfer failures).
+       pre-existing chunks, injected transfer failures),
+  (iii) "flood" cases: more chunks than the bounded chunk queue plus the workers can hold (> 11·N), under producer-ahead schedules
+       (the producer fills the queue and waits in `put` while transfers are pending) × fault plans: none / one failed transfer
+       (N = 1: no worker survives; N ≥ 2: the survivors drain the queue) / backend outage from the k-th transfer on (every worker
+       fails) — the abort protocol between the failing workers and a producer that is waiting on a full queue.
 For every schedule the observed event trace is translated into the events of the four transition systems of
 `ReplicatModel/Sched.lean` and must be accepted by the compiled model (`sched.accepts`: slots, snapshot, locks, fin); the model's
 final state is compared with the implementation's (free slots, peak in-flight, processed chunks, uploaded?, finalisation counts,
-failed loaders).
+failed loaders).  A snapshot run that hangs is cut at the hang: the prefix must be a legal schedule that ends in a state the model
+calls `stuck` (with the extracted shape of the producer's put), i.e. the model explains the hang.
 Direct oracles (the property's own statement on the real code): spurious exception, hang, in-flight transfers > N,
 slots ≠ {2..N+1} afterwards (success or failure), two writers inside one file, file finalised ≠ once, manifest / stored objects /
 restored tree ≠ the sequential run.
@@ -47,6 +52,12 @@ def gen_case(r, small=None):
     if small == 'abort1':      # more chunks than the queue holds, one worker: only the abort flag lets the producer stop after a failure
         mn = mx = 12
         return {'params': (mn, mx), 'files': {'f0': r.randbytes(12 * 14)}, 'n': 1, 'async': r.random() < 0.5, 'encrypted': False, 'shape': small}
+    if small == 'flood':       # more chunks than queue (10·N) + workers (N) can hold: the producer has to wait in `put` on a full queue
+        n = r.choice([1, 1, 2, 3])
+        sz = r.choice([12, 16])
+        cap = flood_capacity(n)
+        t = cap + r.choice([1, 2, 3, 5]) if r.random() < 0.85 else max(2, cap - r.choice([1, 2, n + 3]))   # (some stay below the bound: control)
+        return {'params': (sz, sz), 'files': {'f0': r.randbytes(sz * t)}, 'n': n, 'async': r.random() < 0.5, 'encrypted': False, 'shape': small}
     if small == 'stall1':      # one worker, few chunks: the loop thread is held between the two halves of the workers' exit test
         mn = mx = 16
         return {'params': (mn, mx), 'files': {'a': r.randbytes(32), 'b': r.randbytes(16 * r.choice([3, 4, 5]))}, 'n': 1, 'async': r.random() < 0.5, 'encrypted': False, 'shape': small}
@@ -69,6 +80,14 @@ def gen_case(r, small=None):
         files['d0/extra'] = r.choice(pool) + r.choice(pool)
     return {'params': (mn, mx), 'files': files, 'n': r.choice([1, 2, 2, 3, 3, 5]), 'async': r.random() < 0.4, 'encrypted': r.random() < 0.25,
             'shape': 'gen', 'prepopulate': r.choice([None, None, 'all', 'some'])}
+
+
+def flood_capacity(n, queue_factor=None):
+    """chunks that fit into the bounded queue (`queueFactor`·N, read from the source by the extractor) plus one per worker"""
+    return (queue_factor if queue_factor is not None else QUEUE_FACTOR[0]) * n + n
+
+
+QUEUE_FACTOR = [10]     # replaced by the extracted value (`sched.flags`) at the start of a run
 
 
 def canon_manifest(data, chunks):
@@ -185,7 +204,9 @@ def slots_request(log, n):
     return {'op': 'sched.accepts', 'system': 'slots', 'n': n, 'events': [e for _, e in evs]}, len(unmatched), len(cl)
 
 
-def snapshot_request(log, total, n):
+def snapshot_request(log, total, n, upto_hang=False):
+    """`upto_hang`: translate only the prefix before the controller's `hang` mark (what follows is the tear-down) and close it with
+    the abort flag the source sets after a worker failure — the model is then asked whether that state is stuck"""
     evs = []
     busy = {}
     failed = False
@@ -194,7 +215,11 @@ def snapshot_request(log, total, n):
     produced = 0
     for e in log:
         k = e[0]
-        if k == 'q_put':
+        if k == 'hang' and upto_hang:
+            break
+        if k == 'q_put_try':
+            evs.append(['enterPut'] + ([e[1]] if e[1] is not None else []))
+        elif k == 'q_put':
             evs.append(['put'] + ([e[1]] if e[1] is not None else []))
             produced += 1
         elif k == 'job_end' and e[1] == ('P',):
@@ -227,6 +252,8 @@ def snapshot_request(log, total, n):
                     failed = True
         elif k == 'call_start' and e[2] == 'upload' and e[3][0] == 's':
             evs.append(['upload'])
+    if upto_hang and failed and not abort_emitted:
+        evs.append(['raiseAbort'])
     return {'op': 'sched.accepts', 'system': 'snapshot', 'total': total, 'n': n, 'events': evs}
 
 
@@ -395,6 +422,8 @@ def make_strategy(spec, r):
         return S.RandomStrategy(r)
     if kind == 'pct':
         return S.PCT(r, depth=spec[1], est_steps=spec[2])
+    if kind == 'ahead':
+        return S.ProducerAhead(r, bias=spec[1] if len(spec) > 1 else 1.0)
     if kind == 'listed':
         return S.Listed({int(k): v for k, v in spec[1].items()}, mode=spec[2])
     raise ValueError(kind)
@@ -434,11 +463,22 @@ def run_snapshot_schedule(prep, spec, r, flags, fail=None, quick=True, hold_empt
            'decisions': [list(map(str, d[:1])) + [d[1]] for d in ctl.decisions][:400], 'shape': getattr(strat, 'shape', None)}
     V = out['violations']
     want_slots = list(range(flags['slotBase'], flags['slotBase'] + n))
+    failed_workers = sum(1 for e in ctl.log if e[0] == 'w_end' and e[2] not in (None, 'CancelledError'))
+    fault_name = None if fail is None else (fail['kind'] if isinstance(fail, dict) else fail[0])
     if res['hang']:
-        V.append(('snapshot:hang', f'snapshot did not terminate under the schedule: {res["hang"]}'))
+        what = f'snapshot (N={n}, {prep.total} chunks, queue bound {ctl.queue_cap}) did not terminate under the schedule: {res["hang"]}'
+        if ctl.fault_log:
+            f0 = ctl.fault_log[0]
+            what += (f'; {len(ctl.fault_log)} injected transfer failure(s) (fault plan {fail}), the first in {f0["op"]} of chunk {f0["label"]} with '
+                     f'{f0["queue_len"]}/{f0["queue_cap"]} chunks queued and the producer {f0["producer"]}; {failed_workers} of {n} workers raised; '
+                     f'expected: the transfer error is re-raised')
+        stacks = ctl.blocked_stacks
+        if stacks:
+            what += f'; threads still blocked (innermost first): {stacks}'
+        V.append(('snapshot:hang', what))
     if ctl.max_inflight > n:
         V.append(('slots:inflight-exceeds-concurrency', f'{ctl.max_inflight} backend transfers in flight with concurrency {n} (snapshot)'))
-    if fail is None:
+    if fail is None or (isinstance(fail, dict) and not ctl.faults_injected and not res['hang']):      # (a plan that starts after the last transfer)
         if res['outcome'] == 'error':
             V.append((f'snapshot:spurious-exception:{exc_name(res["error"])}', f'snapshot raised {res["error"]!r} under a schedule; the sequential run succeeds'))
         elif res['outcome'] == 'ok':
@@ -456,7 +496,7 @@ def run_snapshot_schedule(prep, spec, r, flags, fail=None, quick=True, hold_empt
             V.append(('snapshot:failure-swallowed', 'a transfer failed but snapshot reported success'))
         elif res['outcome'] == 'error' and not isinstance(res['error'], S.InjectedFault):
             V.append((f'snapshot:spurious-exception:{exc_name(res["error"])}', f'snapshot raised {res["error"]!r} instead of the injected transfer error'))
-        if ctl.faults_injected and fail[0] != 'upload' and any(k.startswith('snapshots/') for k in be.objects):
+        if ctl.faults_injected and fault_name != 'upload' and any(k.startswith('snapshots/') for k in be.objects):
             V.append(('snapshot:uploaded-after-failure', 'a snapshot object was uploaded although a chunk transfer had failed'))
     if not res['hang']:
         if not res.get('quiescent'):
@@ -466,13 +506,17 @@ def run_snapshot_schedule(prep, spec, r, flags, fail=None, quick=True, hold_empt
     # model requests
     sreq, unmatched, ncalls = slots_request(ctl.log, n)
     out['model'].append((sreq, {'free': res.get('slots_after'), 'max_inflight': ctl.max_inflight, 'unmatched': unmatched, 'hang': bool(res['hang'])}, 'slots'))
-    preq = snapshot_request(ctl.log, prep.total, n)
+    preq = snapshot_request(ctl.log, prep.total, n, upto_hang=bool(res['hang']))
     impl_up = any(k.startswith('snapshots/') for k in be.objects)
     out['model'].append((preq, {'uploaded': impl_up, 'ok': res['outcome'] == 'ok', 'total': prep.total, 'hang': bool(res['hang']), 'failed': fail is not None and bool(ctl.faults_injected)}, 'snapshot'))
     out['summary'] = {'op': 'snapshot', 'n': n, 'async': case['async'], 'chunks': prep.total, 'distinct': prep.distinct_chunks, 'pre': pre, 'strategy': spec[0],
-                      'steps': ctl.step, 'multi': ctl.multi_choice_steps, 'calls': ncalls, 'max_inflight': ctl.max_inflight, 'fail': None if fail is None else fail[0],
+                      'steps': ctl.step, 'multi': ctl.multi_choice_steps, 'calls': ncalls, 'max_inflight': ctl.max_inflight, 'fail': fault_name,
+                      'fault_plan': fail if isinstance(fail, dict) else None, 'faults': len(ctl.fault_log), 'failed_workers': failed_workers,
+                      'queue_cap': ctl.queue_cap, 'full_waits': ctl.put_full_waits,
+                      'full_at_fault': sum(1 for f in ctl.fault_log if f['queue_cap'] and f['queue_len'] >= f['queue_cap']),
+                      'producer_waiting_at_fault': sum(1 for f in ctl.fault_log if f['producer'] == 'waiting-full'),
                       'order': [e[2] for e in ctl.log if e[0] == 'q_get'][:24], 'completion': [str(e[3]) + e[2][0] for e in ctl.log if e[0] == 'call_end'][:40]}
-    out['nontrivial'] = ctl.multi_choice_steps >= 2 and ncalls >= 3
+    out['nontrivial'] = ctl.multi_choice_steps >= 2 and (ncalls >= 3 or ctl.put_full_waits > 0)
     del repo
     return out
 
@@ -558,7 +602,8 @@ def run_restore_schedule(prep, spec, r, flags, sc, tag, fail=None, quick=True, p
         out['fin_unavailable'] = True
     out['summary'] = {'op': 'restore', 'n': n, 'async': case['async'], 'chunks': prep.total, 'distinct': prep.distinct_chunks, 'files': len(paths), 'strategy': spec[0],
                       'steps': ctl.step, 'multi': ctl.multi_choice_steps, 'loaders': obs['n_loaders'], 'writers': obs['n_writers'], 'loader_paths': obs['loader_paths'][:12],
-                      'fail': None if fail is None else fail[0], 'dev': spec[1] if spec[0] == 'listed' else None,
+                      'fail': None if fail is None else (fail['kind'] if isinstance(fail, dict) else fail[0]), 'faults': len(ctl.fault_log),
+                      'dev': spec[1] if spec[0] == 'listed' else None,
                       'lock_order': [str(e[3][1:3]) + e[2] for e in ctl.log if e[0] == 'lock_acq'][:40]}
     out['nontrivial'] = ctl.multi_choice_steps >= 4 and obs['n_loaders'] >= 2
     del repo
@@ -573,6 +618,7 @@ def do_item(arg):
     common.use_rebuilt_chunker()
     quick = tier == 'quick'
     kind = item['kind']
+    QUEUE_FACTOR[0] = int(flags.get('queueFactor') or 10)
     r = rng_for(seed, 'C09', item['id'])
     results = []
     t_start = time.time()
@@ -628,8 +674,23 @@ def do_item(arg):
             elif kind == 'snap-stall-empty':
                 for rep in range(item.get('reps', 2)):
                     results.append(run_snapshot_schedule(prep, ('fifo',), rng_for(seed, 'C09-stall', item['id'], rep), flags, quick=quick, hold_empty=True))
-            elif kind == 'cli-failure':
-                pass
+            elif kind == 'flood':
+                # producer-ahead schedules × fault plans on a case with more chunks than queue + workers hold
+                n = case['n']
+                rr = rng_for(seed, 'C09-flood', item['id'])
+                plans = [('ahead', None)]
+                # nobody survives: the only worker's transfer fails / an outage starts at the k-th chunk transfer
+                plans.append(('ahead', {'kind': 'calls', 'ordinals': [rr.randrange(0, 3)]} if n == 1 else {'kind': 'outage', 'from': 0}))
+                plans.append(('ahead', {'kind': 'outage', 'from': rr.randrange(0, 2 * n + 2)}))
+                plans.append((rr.choice(['ahead9', 'pct']), {'kind': 'outage', 'from': rr.randrange(0, 3 * n + 1), 'ops': [rr.choice(['exists', 'upload_stream'])]}))
+                # somebody survives (N ≥ 2): a transient failure of one or two transfers
+                if n >= 2:
+                    plans.append(('ahead', {'kind': 'calls', 'ordinals': sorted(rr.sample(range(0, 3 * n), rr.choice([1, 1, 2]) if n > 2 else 1))}))
+                for p_i, (st, fplan) in enumerate(plans[:item.get('runs', 9)]):
+                    spec = {'ahead': ('ahead', 1.0), 'ahead9': ('ahead', 0.9), 'pct': ('pct', 3, 20 + 12 * prep.total)}[st]
+                    results.append(run_snapshot_schedule(prep, spec, rng_for(seed, 'C09-fl', item['id'], p_i), flags, fail=fplan, quick=quick))
+                    if time.time() - t_start > item.get('time_box', 60):
+                        break
             elif kind == 'random':
                 est = 20 + 12 * prep.total
                 for s_i, spec in enumerate(item['strategies']):
@@ -639,6 +700,8 @@ def do_item(arg):
                     fail = None
                     if item.get('fail_first') and prep.total:
                         fail = ('exists', ('c', 0))
+                    elif item.get('outage') and s_i == 0 and prep.total:
+                        fail = {'kind': 'outage', 'from': r.randrange(0, prep.total + 1)}
                     elif item.get('fail') and s_i == 0 and prep.total:
                         k = r.randrange(prep.total)
                         fail = (r.choice(['exists', 'upload_stream']) if not case.get('prepopulate') else 'exists', ('c', prep.names[prep.loc_by_counter[k]][1]))
@@ -650,7 +713,9 @@ def do_item(arg):
                             if r.random() < 0.5:
                                 pre[os.path.join(str(prep.src), rel)[1:]] = (data + b'TAIL' if r.random() < 0.5 else data[:len(data) // 2], None)
                     rfail = None
-                    if item.get('fail') and s_i == 1 and prep.total:
+                    if item.get('outage') and s_i == 1 and prep.total:
+                        rfail = {'kind': 'outage', 'from': r.randrange(0, prep.distinct_chunks + 1)}
+                    elif item.get('fail') and s_i == 1 and prep.total:
                         k = r.randrange(prep.total)
                         rfail = ('download_stream', ('c', prep.names[prep.loc_by_counter[k]][1]))
                     results.append(run_restore_schedule(prep, spec, rng_for(seed, 'C09-r', item['id'], s_i), flags, sc, 't%d' % s_i, fail=rfail, quick=quick, preexisting=pre))
@@ -717,13 +782,15 @@ def plan(seed, tier):
     for rep in range(3 if quick else 12):
         items.append({'id': f'stall{rep}', 'kind': 'snap-stall-empty', 'case': f'st{rep}', 'small': 'stall1', 'reps': 2})
     items.append({'id': 'abort1', 'kind': 'random', 'case': 'ab1', 'small': 'abort1', 'strategies': [['random'], ['fifo']], 'fail_first': True, 'time_box': 40})
+    for rep in range(8 if quick else 60):
+        items.append({'id': f'flood{rep}', 'kind': 'flood', 'case': f'fl{rep}', 'small': 'flood', 'time_box': 45 if quick else 90})
     for n in ((1, 2, 3) if quick else (1, 2, 3, 5)):
         items.append({'id': f'cli{n}', 'kind': 'cli-failure', 'case': f'cli{n}', 'n': n, 'chunks': 12 if n < 5 else 24, 'pseed': seed})
     # (ii) random / PCT on generated cases
     nrand = 64 if quick else 700
     for k in range(nrand):
         items.append({'id': f'g{k}', 'kind': 'random', 'case': f'g{k}', 'strategies': [['pct', 2, 0], ['pct', 3, 0], ['random']] if not quick else [['pct', 3, 0], ['random']],
-                      'fail': k % 4 == 3, 'time_box': 40 if quick else 90})
+                      'fail': k % 4 == 3, 'outage': k % 8 == 5, 'time_box': 40 if quick else 90})
     return items
 
 
@@ -738,7 +805,17 @@ def compare(kind, req, impl, m, flags):
             return [f'life: model (joins={m.get("joins")}) predicts blocked loaders = {predicted}, implementation left {impl["blocked"]} blocked']
         return []
     if impl.get('hang'):
-        return []          # a hung run is reported by the oracle; its trace is a prefix torn down by the controller
+        # a hung run is reported by the oracle; its trace is a prefix torn down by the controller.  For the snapshot pipeline the
+        # prefix up to the hang must be a legal schedule that ends in a state the model calls stuck (the model explains the hang)
+        if kind != 'snapshot':
+            return []
+        if not m.get('ok'):
+            ev = req['events'][m['index']] if m.get('index', 0) < len(req['events']) else None
+            return [f'snapshot: trace of the hung run rejected by the model at event #{m.get("index")} {ev}: {m.get("why")}']
+        if not m.get('stuck'):
+            return [f'snapshot: the implementation hung but the model state is not stuck (rechecks={m.get("rechecks")}, inPut={m.get("inPut")}, '
+                    f'queue {len(m.get("queue", []))}/{m.get("cap")}, workers {m.get("workers")}, abort={m.get("abort")})']
+        return []
     if not m.get('ok'):
         ev = req['events'][m['index']] if m.get('index', 0) < len(req['events']) else None
         return [f'{kind}: observed trace rejected by the model at event #{m.get("index")} {ev}: {m.get("why")}']
@@ -797,7 +874,8 @@ def run(out, drv, info):
                 '1–4 files built from a pool of shared blocks (chunks referenced by several files / several times by one file, empty files, tails) × N ∈ {1,2,3,5} × '
                 'sync/coroutine backend × plain/encrypted × pre-existing chunks (none/some/all) × pre-existing target files × optional injected transfer failure; '
                 'schedule = all completion orders (small snapshot cases), every single pre-emption (thorough: pairs) at lock/write/call boundaries (2–3 loaders sharing files), '
-                'PCT(d=2,3) and uniform random elsewhere. non-trivial = the controller had ≥ 2 (snapshot) / ≥ 4 (restore, ≥ 2 loaders) decision points with more than one enabled agent; '
+                'PCT(d=2,3) and uniform random elsewhere; flood cases (> 11·N chunks, N ∈ {1,2,3}) under producer-ahead schedules (the producer waits on the full queue) × '
+                'fault plans none / listed transfers fail / outage from the k-th transfer on. non-trivial = the controller had ≥ 2 (snapshot) / ≥ 4 (restore, ≥ 2 loaders) decision points with more than one enabled agent; '
                 'distinct = hash of (case summary, realised order of queue gets / completions / lock acquisitions)')
     out.assumptions = ['pre-emption only at the instrumented points (backend transfers, Lock acquire / after release, _write_file_part, producer put); CPython byte-code level '
                        'interleavings, the GIL and event-loop internals are not explored (claim is PARTIAL)',
@@ -819,6 +897,7 @@ def run(out, drv, info):
     except OSError:
         pass
     out.extra['model_flags'] = flags
+    QUEUE_FACTOR[0] = int(flags.get('queueFactor') or 10)
     items = plan(out.seed, out.tier)
     results = []
     for it in [x for x in items if x['kind'] == 'cli-failure']:
@@ -844,7 +923,7 @@ def run(out, drv, info):
             out.extra.setdefault('infra_errors', []).append(res['infra_error'][-600:])
             continue
         s = res['summary']
-        key = {k: s.get(k) for k in ('op', 'n', 'async', 'chunks', 'distinct', 'pre', 'files', 'fail', 'order', 'completion', 'lock_order', 'loader_paths')}
+        key = {k: s.get(k) for k in ('op', 'n', 'async', 'chunks', 'distinct', 'pre', 'files', 'fail', 'fault_plan', 'order', 'completion', 'lock_order', 'loader_paths')}
         key['case'] = res['case']
         out.case(dict(key, strategy=s.get('strategy'), steps=s.get('steps'), multi=s.get('multi')) if len(out.samples) < 6 else key, res.get('nontrivial', False))
         out.count(f"op:{s['op']}")
@@ -855,6 +934,19 @@ def run(out, drv, info):
         out.count('chunks:' + ('0' if not s['chunks'] else '1-3' if s['chunks'] <= 3 else '4-8' if s['chunks'] <= 8 else '>8'))
         if s.get('fail'):
             out.count('injected-failure:' + s['fail'])
+        if s['op'] == 'snapshot':
+            # the class "a transfer fails while the producer is ahead": how far ahead, and is anybody left to drain the queue
+            if s.get('full_waits'):
+                out.count('snapshot:producer-waited-on-full-queue')
+            if s.get('chunks', 0) > flood_capacity(s['n'], flags.get('queueFactor')):
+                out.count('snapshot:chunks>queue+workers')
+            if s.get('faults'):
+                survivors = s['n'] - s.get('failed_workers', 0)
+                out.count('snapshot-failure:' + ('no-worker-survives' if survivors <= 0 else 'some-worker-survives'))
+                if s.get('producer_waiting_at_fault') or s.get('full_at_fault'):
+                    out.count('snapshot-failure-with-full-queue:' + ('no-worker-survives' if survivors <= 0 else 'some-worker-survives'))
+                if s.get('faults', 0) > 1:
+                    out.count('snapshot-failure:several-transfers-failed')
         if s['op'] == 'restore-cli':
             out.count('cli-style-failed-restore')
         elif s['op'] == 'restore':
@@ -885,7 +977,7 @@ def run(out, drv, info):
                                                       'summary': res['summary'], 'request_digest': digest(req), 'events_head': req['events'][:60]})
             else:
                 out.traces_validated += 1
-                out.count(f'accepted:{kind}')
+                out.count(f'accepted:{kind}' + (':hang-explained-by-model' if kind == 'snapshot' and impl.get('hang') else ''))
     out.extra['schedules'] = len(results) - infra
     if infra and infra > len(results) // 4 and info.get('proof_ok'):
         # (with a broken proof the verdict is a violation anyway; an implementation that cannot even be constructed is not an infrastructure problem)
